@@ -38,7 +38,8 @@ USER_SRC = {
     "ulib_extra.py": "from mpilot.commands import Command\n\nclass Gamma(Command):\n    def execute(self, **kw):\n        return 'ulib_extra.Gamma'\n",
     "ulib2.py": "from mpilot.commands import Command\n\nclass Alpha(Command):\n    def execute(self, **kw):\n        return 'ulib2.Alpha'\n",
     "upkg/__init__.py": "from mpilot.commands import Command\n\nclass Eps(Command):\n    def execute(self, **kw):\n        return 'upkg.Eps'\n",
-    "upkg/sub.py": "from mpilot.commands import Command\n\nclass Delta(Command):\n    def execute(self, **kw):\n        return 'upkg.sub.Delta'\n",
+    "upkg/sub.py": "from mpilot.commands import Command\n\nclass Delta(Command):\n    def execute(self, **kw):\n        return 'upkg.sub.Delta'\n\n"
+                   "class AddNumbers(Command):\n    name = 'Add'  # documented explicit naming: the command name differs from the class name\n    def execute(self, **kw):\n        return 'upkg.sub.Add'\n",
     "upkg2/__init__.py": "",
     "upkg2/deep.py": "from mpilot.commands import Command\n\nclass Theta(Command):\n    def execute(self, **kw):\n        return 'upkg2.deep.Theta'\n",
     "upkgx.py": "from mpilot.commands import Command\n\nclass Zeta(Command):\n    def execute(self, **kw):\n        return 'upkgx.Zeta'\n",
@@ -73,7 +74,7 @@ def _known():
             k.append((E + ".csv.io", name))
         for name in SIG.NETCDF_IO:
             k.append((E + ".netcdf.io", name))
-        k += [("ulib", "Alpha"), ("ulib", "Beta"), ("ulib_extra", "Gamma"), ("ulib2", "Alpha"), ("upkg", "Eps"), ("upkg.sub", "Delta"), ("upkgx", "Zeta"), ("upkg2.deep", "Theta")]
+        k += [("ulib", "Alpha"), ("ulib", "Beta"), ("ulib_extra", "Gamma"), ("ulib2", "Alpha"), ("upkg", "Eps"), ("upkg.sub", "Delta"), ("upkg.sub", "Add"), ("upkgx", "Zeta"), ("upkg2.deep", "Theta")]
         KNOWN = k
     return KNOWN
 
